@@ -371,8 +371,11 @@ def r20(ctx: Ctx) -> RuleReport:
                     same = norm(joined) == norm(ast.Subscript(value=tgt.value, slice=tgt.slice, ctx=ast.Load())) or \
                         (norm(joined) == norm(tgt.value) and tgt.slice.lower is None and tgt.slice.upper is None)
                     regroup = same and (_min_ws_len(ctx, fi, n.value.elts[0].func.value, 0, n) or 0) >= 1
+                alias = isinstance(tgt, ast.Name) and isinstance(n.value, ast.Name)     # `current = rest`: switches which list later pieces go to
                 if regroup:
                     rep.ok(key, fi.loc(n), 'projection-preserving regrouping: parts = [<whitespace>.join(parts)]')
+                elif alias:
+                    rep.undecided(key, fi.loc(n), 'an option decides which list the following pieces are collected in; whether all lists are written, in order, is not analysed')
                 else:
                     rep.violation(key, fi.loc(n), 'content is re-bound under an option-dependent test in a way that is not the '
                                   'whitespace-only regrouping `parts = [ws.join(parts)]`')
